@@ -33,6 +33,10 @@ import (
 //	        {V:q}, float64 q, a second *Cell {V:q-1} (all print alike under %v)
 //	f64     1, 2, ... / halves / -Inf and huge negatives / denormals; NaN is
 //	        never a model member (see the nanclear operation)
+//	u8, i8  uint8 / int8: 1-byte elements.  The model values are 0..255 and
+//	        stand for ALL values of the type (x is uint8(x), resp. the int8
+//	        with the same bits), so a set can hold every value there is and
+//	        a set and its complement partition the whole type
 
 // domLo..domHi-1 are the model values a dom can decode.
 const (
@@ -47,6 +51,44 @@ type dom[T comparable] struct {
 	val  func(e T) (int, bool) // its inverse; false for a member the harness never made
 	repr func(e T) string      // short rendering for the legend of a message
 	nan  func() T              // f64 only: a NaN, which is never a model member
+	// univ > 0: the model values 0..univ-1 are ALL the values of T (1-byte
+	// kinds).  There is then no element "outside every universe": the
+	// interpreter picks its probes per use (see setRun.fresh).
+	univ int
+	note string // replaces the per-value legend
+}
+
+// Kind names of the 1-byte instantiations (local to this package).
+const (
+	kindU8 = "u8"
+	kindI8 = "i8"
+)
+
+func isByteKind(k string) bool { return k == kindU8 || k == kindI8 }
+
+func byteOf(kind string, x int) uint8 {
+	if x < 0 || x > 255 {
+		panic(fmt.Sprintf("harness error: kind %s: model value %d outside [0,255]", kind, x))
+	}
+	return uint8(x)
+}
+
+func u8Dom() *dom[uint8] {
+	return &dom[uint8]{kind: "uint8", univ: 256,
+		of:   func(x int) uint8 { return byteOf(kindU8, x) },
+		val:  func(e uint8) (int, bool) { return int(e), true },
+		repr: func(e uint8) string { return strconv.Itoa(int(e)) },
+		note: "the sets are Set[uint8]; model value x (0..255) stands for uint8(x): every value of the type is a possible member",
+	}
+}
+
+func i8Dom() *dom[int8] {
+	return &dom[int8]{kind: "int8", univ: 256,
+		of:   func(x int) int8 { return int8(byteOf(kindI8, x)) },
+		val:  func(e int8) (int, bool) { return int(uint8(e)), true },
+		repr: func(e int8) string { return strconv.Itoa(int(e)) },
+		note: "the sets are Set[int8]; model value x (0..255) stands for the int8 with the same bits (x for x < 128, x-256 above): every value of the type is a possible member",
+	}
 }
 
 func (d *dom[T]) ofs(xs []int) []T {
@@ -95,6 +137,9 @@ func (d *dom[T]) list(es []T) string {
 
 // legend spells out the members behind the model values a message can mention.
 func (d *dom[T]) legend(c Case) string {
+	if d.note != "" {
+		return d.note
+	}
 	seen := map[int]bool{}
 	var xs []int
 	add := func(x int) {
@@ -309,7 +354,7 @@ func f64Dom() *dom[float64] {
 
 // elemKinds are the kinds the generators draw besides "" (= int, the ints of
 // the case are the members).
-var elemKinds = []string{elem.Int, elem.Str, elem.I16, elem.Wide, elem.Ptr, elem.Any, elem.F64}
+var elemKinds = []string{elem.Int, elem.Str, elem.I16, elem.Wide, elem.Ptr, elem.Any, elem.F64, kindU8, kindI8}
 
 // kindName is the label of the elem=<kind> class.
 func kindName(e string) string {
